@@ -468,6 +468,11 @@ func (e *Exec) do64(c *Call, ev *Event) (targets []int) {
 		} else {
 			ev.Ret = u.landmark(v)
 		}
+		if set, wf := view64(e.bm64(c.X)); wf { // exact oracle for every index: the i-th element of the independently projected set
+			if want, ok := set.kth(c.Num.u64()); ok != (err == nil) || ok && want != v {
+				ev.Aux = false
+			}
+		}
 	case "ToArray":
 		arr := e.bm64(c.X).ToArray()
 		ok := sort.SliceIsSorted(arr, func(i, j int) bool { return arr[i] < arr[j] })
